@@ -211,6 +211,7 @@ pub const NEST_KINDS: &[&str] = &[
     "nest(kdf-supp-protected)",
     "nest(wide-siblings)",
     "nest(zigzag-countersig)",
+    "nest(bstr-chain)",
 ];
 
 /// Wrap a COSE_Signature as a counter-signature in a header map.
@@ -600,6 +601,49 @@ pub fn gen_nest_opt(rng: &mut Rng, cap: usize, full_depth: bool) -> Case {
                 let mut k = vec![0x84, 0x01, 0x83, 0xf6, 0xf6, 0xf6, 0x83, 0xf6, 0xf6, 0xf6];
                 k.extend(o);
                 (k, "CoseKdfContext")
+            }
+        }
+        17 => {
+            // a byte string that holds a byte string that holds ... a leaf item: a CBOR leaf at
+            // every level (the parser's depth limit never applies), and anything that looks INTO
+            // byte strings recursively is bounded by the input length only
+            let d = depth(rng, 3);
+            let leaf: Vec<u8> = match rng.below(4) {
+                0 => vec![0xa1, 0x01, 0x01],
+                1 => vec![0xa0],
+                2 => vec![0x83, 0x40, 0xa0, 0x40],
+                _ => vec![0x00],
+            };
+            let mut lens = vec![0usize; d + 1];
+            lens[d] = leaf.len();
+            for i in (0..d).rev() {
+                lens[i] = head(2, lens[i + 1] as u64).len() + lens[i + 1];
+            }
+            let mut chain = Vec::with_capacity(lens[0]);
+            for i in 0..d {
+                chain.extend(head(2, lens[i + 1] as u64));
+            }
+            chain.extend(leaf);
+            // bare, or in the places where coset itself looks into a byte string or keeps one
+            match rng.below(5) {
+                0 => (chain, "CoseKey"),
+                1 => {
+                    let mut o = vec![0x81];
+                    o.extend(chain);
+                    (o, "CoseKeySet")
+                }
+                2 => {
+                    let mut o = vec![0x84];
+                    o.extend(chain);
+                    o.extend([0xa0, 0xf6, 0x40]);
+                    (o, "CoseSign1")
+                }
+                3 => {
+                    let mut o = vec![0xa1, 0x18, 0x63];
+                    o.extend(chain);
+                    carry_header(rng, &o)
+                }
+                _ => carry_value(rng, &chain),
             }
         }
         16 => {
